@@ -39,6 +39,11 @@ class Node(HasTraits):
     nums = List(Int)
     # a dependency compared by identity: an equal but distinct value IS a change (1 -> 1.0 -> True)
     raw = Any(1, comparison_mode=ComparisonMode.identity)
+    # traits selected through metadata (`+offset`): the metadata VALUE may be anything but None, also 0
+    off0 = Int(offset=0)
+    off1 = Int(offset=10)
+    # a dependency that is not part of the pickled state
+    tval = Int(transient=True)
 
 
 def f_scalar(o):
@@ -89,6 +94,14 @@ def f_sitems(o, idx):
 
 def f_area(o):
     return o.value * 7 + o.other * 3
+
+
+def f_meta(o):
+    return o.off0 * 3 + o.off1 * 7 + 1
+
+
+def f_trans(o):
+    return o.tval * 2 + 1
 
 
 def f_maybe(o):
@@ -153,6 +166,8 @@ PROPS = {
     "raw": ("raw", f_raw),
     "area": (["value", "other"], f_area),
     "maybe": ("value", f_maybe),
+    "meta": ("+offset", f_meta),
+    "trans": ("tval", f_trans),
 }
 IDX = {}          # id(obj) -> pool index of the case being run (for the identity-dependent getters)
 IDFUNS = {"mitems": f_mitems, "sitems": f_sitems}
@@ -278,11 +293,13 @@ PATHS = {
     "multi": [["value"], ["child", "value"], ["nums", "*"]],
     "mitems": [["m", "*"]], "sitems": [["s", "*"]], "xscalar": [["value"]], "redecl": [["other"]],
     "area": [["value"], ["other"]], "maybe": [["value"]], "dynchild": [["child", "extra"]], "tname": [["value"]],
+    "meta": [["off0"], ["off1"]], "trans": [["tval"]],
 }
 # (the "raw" and "chain" shapes have their own view below)
-TCODE = {"value": 1, "other": 2, "child": 3, "kids": 4, "m": 5, "s": 6, "nums": 7, "extra": 8}
+TCODE = {"value": 1, "other": 2, "child": 3, "kids": 4, "m": 5, "s": 6, "nums": 7, "extra": 8, "off0": 9, "off1": 10, "tval": 11}
 
 
+SCALARS = ("value", "other", "extra", "off0", "off1", "tval")
 EMPTY = {"kids": list, "nums": list, "m": dict, "s": set}
 
 
@@ -318,7 +335,7 @@ def walk(obj, path, idx, matched, view):
         return
     matched.add(("t", id(obj), name))
     val = obj.__dict__.get(name)
-    if name in ("value", "other", "extra"):
+    if name in SCALARS:
         view += [TCODE[name], idx.get(id(obj), -9), val if val is not None else 0]
         return
     if name == "child":
@@ -552,7 +569,7 @@ def run_case(case):
                 elif k == "Set":
                     tr, v = op[2], op[3]
                     touched = ("t", id(o), tr) in matched
-                    if tr in ("value", "other", "extra"):
+                    if tr in SCALARS:
                         setattr(o, tr, v)
                     elif tr == "child":
                         o.child = None if v is None else pool[v]
